@@ -102,7 +102,7 @@ PROPS = {
         "chain": [chain("genesis", 32, 25, 400, 40)],
         "corpus": ["witness", "regress", "known"],
         "relevant": rel_all,
-        "level_text": "Proof: c15_import_succeeds (for every state of every run with an empty gov module account, export followed by InitChain in the repository's module order - regenerated from app.go - succeeds: the enterprise and stream balance checks pass and every registered invariant asserted by crisis holds; the imported state is given explicitly), c15_enterprise_identical (orders are stored by ascending id and the whitelist ascending in every state of every run, so the imported enterprise section is the same value as the exported one, as are bank, streams, fee, grants, allowances and block time), c15_registries_newest (each registry after import: same parameters and id counter, every registration with its metadata, its stored limit, exactly the newest 20,000 records per registration, the two counters recomputed from them), c15_registries_lossless (with at most 20,000 records retained per registration every point read of the imported WRKChain and BEACON sections answers as before: the recomputed counters are the stored ones, WRKChain by ascending heights, BEACON by the contiguous id range), c15_enterprise_stream_bank_lossless, c15_double_enterprise_import_idempotent, c15_genesis_order, c15_stream_after_crisis_panics (regression witness of the repaired order defect), c15_denom_change_breaks_import (negation witness of the known finding). `..._partial`: 'the same subsequent transactions have the same effects on both chains' is proved only in the sense that everything except the two registry sections is the identical value and the registries answer every point read identically; the congruence of the registry operations with respect to that equivalence (the imported registry lists are in canonical instead of insertion order) is covered by the correspondence (the script continues on the imported chain and is compared with the model).",
+        "level_text": "Proof: c15_import_succeeds (for every state of every run with an empty gov module account, export followed by InitChain in the repository's module order - regenerated from app.go - succeeds: the enterprise and stream balance checks pass and every registered invariant asserted by crisis holds; the imported state is given explicitly), c15_enterprise_identical (orders are stored by ascending id and the whitelist ascending in every state of every run, so the imported enterprise section is the same value as the exported one, as are bank, streams, fee, grants, allowances and block time), c15_registries_newest (each registry after import: same parameters and id counter, every registration with its metadata, its stored limit, exactly the newest 20,000 records per registration, the two counters recomputed from them), c15_registries_lossless (with at most 20,000 records retained per registration every point read of the imported WRKChain and BEACON sections answers as before), c15_export_import_identity (every section of the state is stored in the order the store iterates it - orders, registrations and limits by ascending id, records by ascending store key - in every state of every run, and the import rebuilds that order: with at most 20,000 records retained per registration export followed by import yields the *same state*), c15_same_future (hence every later DeliverTx, CheckTx, BeginBlock and governance proposal has the same result and effect on both chains, and a second export is identical), c15_enterprise_stream_bank_lossless, c15_double_enterprise_import_idempotent, c15_genesis_order, c15_stream_after_crisis_panics (regression witness of the repaired order defect), c15_denom_change_breaks_import (negation witness of the known finding). `..._partial`: with more than 20,000 records retained by some registration the older ones are dropped by design (c15_registries_newest says exactly which); the statement about subsequent transactions is then covered by the correspondence only.",
         "level_note": ENT_NOTE + " Model/Genesis.lean models ExportGenesis/InitGenesis of the four modules, the module manager's order and crisis' invariant assertion. The tie is differential: on generated histories the real app is exported (ExportAppStateAndValidators), a fresh app is InitChain-ed from the export with crisis invariant checking on, all registered invariants are evaluated, the state digest and a second export are compared, and the script continues on the imported chain - all compared with the compiled model. The stream-after-crisis order defect was repaired by a fix: commit; an export taken after coins were sent to the gov module account cannot be imported (SDK gov genesis check) - recorded as a known finding.",
         "assumptions": ["BooksQ as in C04 (in particular governance has not changed the enterprise denomination: known finding otherwise)", "RegQ as in C07 for the registry statements", "nobody has sent coins to the gov module account (known finding otherwise)", "SDK modules' genesis (auth, bank, authz, feegrant, staking, gov...) is outside the model: compared section by section as JSON by the harness"],
     },
@@ -232,8 +232,12 @@ PROPS = {
     },
     "C18": {
         "level_text": "Proof: key builders and the stream key parser are modelled over byte lists; injectivity, section/scan disjointness, big-endian order = numeric order and the stream-key round trip are proved for all 64-bit ids and all address lengths 1..255; section prefixes are regenerated from keys.go on every run; the real builders/parsers are compared with the model on boundary-exhaustive and random inputs.",
-        "level_note": "Theorems are about the model of the codecs; the tie is differential (vpure key/parse) plus regenerated prefixes. Store iteration order (ascending bytes) is the IAVL/cachekv contract and is assumed.",
+        "level_note": "Theorems are about the model of the codecs; the tie is differential (vpure key/parse) plus regenerated prefixes, and — for the stores behind the codecs — generated histories on the real app in which every order, registration, record and stream listed by the keepers is compared with the model and with the point read of the same entity (a listing that aliases one entity with another prints a `D <module>.alias` line). Store iteration order (ascending bytes) is the IAVL/cachekv contract and is assumed.",
         "pure": [{"kinds": ["key", "parse"], Q: 300, T: 20000}],
+        # the stores behind the codecs: every listed order, registration and stream equals its point read, in id order
+        "chain": [chain("reg", 12, 20, 150, 30), chain("all", 8, 20, 100, 30)],
+        "corpus": ["witness", "regress"],
+        "relevant": rel_kinds(("I", "K", "B", "E", "D ent.po", "D ent.alias", "D wrk.chain", "D wrk.alias", "D wrk.block", "D bcn.beacon", "D bcn.alias", "D bcn.ts", "D str.stream", "D str.alias"), lambda k: True),
         "assumptions": ["addresses are 1..255 bytes (the SDK rejects longer ones in MustLengthPrefix: proved as c18_stream_key_rejects_long)",
                         "store iteration is ascending byte order of keys (IAVL/cachekv contract, outside the model)"],
     },
